@@ -12,6 +12,7 @@ from .cfg import (CFG, Node, attr_path, call_name, call_tail, explore, find_path
 from .deferred import registrations
 from .flow import calls_feeding, def_exprs, depends_on, leaves
 from .index import AnalysisError, AnchorVanished, ClassInfo, FuncInfo, Index, func_own_nodes, own_nodes, read_repo_text
+from .index import aug_value
 from .norm import FlowNorm, Env, Normaliser, Poly, all_defs, norm, norm_plain, norm_src, parse_expr, unique_defs
 from .rule import Context, RuleInstance
 from .tables import (NotConstant, get_folder, percent_tokens, regex_ast, regex_end_anchor, regex_finite_language,
@@ -86,8 +87,16 @@ def returns_const(value) -> Callable[[Node], bool]:
     return p
 
 
+def stored_value(n: Node, target: str) -> Optional[ast.AST]:
+    """Like assign_value, and for an augmented assignment `T op= E` the synthetic expression `T op E`."""
+    a = n.ast
+    if n.kind == "stmt" and isinstance(a, ast.AugAssign) and attr_path(a.target) == target:
+        return aug_value(a)
+    return assign_value(n, target)
+
+
 def assign_value(n: Node, target: str) -> Optional[ast.AST]:
-    """The value expression assigned to `target` (name or attr path) at node n."""
+    """The value expression assigned to `target` (name or attr path) at node n (plain assignments only)."""
     a = n.ast
     if n.kind == "stmt" and isinstance(a, ast.Assign):
         for t in a.targets:
